@@ -131,8 +131,12 @@ def r20_1(ctx):
                   "set_initial(ocp.at_t0(x), v) / at_tf / integral is accepted and silently dropped", "if var in self._placeholders and not (is_equal(var, self.T) or is_equal(var, self.t0)): raise")
     # 9. grid names
     f = P.own_method("Stage", "subject_to")
-    has_guard(ctx, f, lambda t, k: t.startswith("gridnotin[") and k == "raise", "Stage.subject_to: unknown grid rejected", "unknown grid name", "if grid not in [...]: raise")
-    has_guard(ctx, f, lambda t, k: t == "grid=='point'" and k == "raise", "Stage.subject_to: a signal expression on grid 'point' is rejected", "path constraint declared as a point constraint", "if is_signal(constr): if grid == 'point': raise", top_level=False)
+    from .c04 import subject_to_table
+    _f, st_table, _stored = subject_to_table(ctx)
+    ctx.check(st_table.get(("no_such_grid", True)) == "<raise>" and st_table.get(("no_such_grid", False)) == "<raise>", "Stage.subject_to: unknown grid rejected", detail="unknown grid name",
+              expected="raise (signal and non-signal expressions alike)", found=str({k: v for k, v in st_table.items() if k[0] == "no_such_grid"}), fi=f)
+    ctx.check(st_table.get(("point", True)) == "<raise>", "Stage.subject_to: a signal expression on grid 'point' is rejected", detail="path constraint declared as a point constraint",
+              expected="raise", found=str(st_table.get(("point", True))), fi=f)
     # 9b. grid names of integral / sum and of variable / parameter declarations: a name no method reads is rejected
     for fname, arg in (("integral", "grid"), ("sum", "grid"), ("register_variable", "grid"), ("register_parameter", "grid")):
         g = P.own_method("Stage", fname)
